@@ -247,6 +247,14 @@ class Ref:
         }
 
 
+    def rhs_scale(self, state: dict[str, float] | None = None, t: float = 0.0) -> dict[str, float]:
+        """Per variable: sum of |coefficient x flux| - the magnitude of the terms a derivative is made of (a derivative can
+        be a small difference of large terms; its rounding error is relative to them, whatever the order of summation)."""
+        vals = self.at(state, t, readouts=False)
+        st = self.stoichiometry(vals)
+        return {v: float(sum(abs(coef * vals[flux]) for flux, coef in st.get(v, {}).items())) for v in self.variables}
+
+
 # --------------------------------------------------------------------------
 # real model builder
 # --------------------------------------------------------------------------
